@@ -207,6 +207,16 @@ func childMain(spec string) {
 		walkBatchChild(c)
 		return
 	}
+	if c.Kind == "run" {
+		r, ok := runRunCase(c)
+		if !ok {
+			fmt.Fprintln(os.Stderr, "unknown case:", spec)
+			os.Exit(2)
+		}
+		b, _ := json.Marshal(r)
+		fmt.Println(string(b))
+		return
+	}
 	src, ok := sourceOf(c)
 	if !ok {
 		fmt.Fprintln(os.Stderr, "unknown case:", spec)
@@ -963,6 +973,9 @@ func main() {
 	// limit must stay an ordinary error after any number of siblings.
 	h.mixedFamilies()
 	lap("mixed")
+	// (A4) long runs of ignored tokens at nesting depth 1, in children with a lowered stack limit
+	h.ignoredRuns()
+	lap("runs")
 	// (B) work families
 	for _, f := range families {
 		h.workFamily(f)
@@ -1208,6 +1221,14 @@ func (h *harness) replay(c Case, verbose bool) {
 		if !(o.Status == "ok" && !o.Res.Accepted && o.Res.DepthErr) {
 			run.Violate("property", fmt.Sprintf("%s: %d siblings then nesting %d deep: status=%s first=%q %s", c.Family, c.N, c.From, o.Status, o.Res.First, o.Tail), "", false, c)
 		}
+	case "run":
+		o, ok, kind, what := h.runVerdict(c)
+		if verbose {
+			fmt.Printf("replay run: status=%s %+v %s\n", o.Status, o.Res, what)
+		}
+		if !ok {
+			run.Violate(kind, what, "", false, c)
+		}
 	case "work":
 		o, v := h.workCase(c)
 		if verbose {
@@ -1221,7 +1242,7 @@ func (h *harness) replay(c Case, verbose bool) {
 		}
 	}
 	if verbose && h.model != nil {
-		if src, ok := sourceOf(c); ok && len(src) < 100000 {
+		if src, ok := sourceOf(c); ok && len(src) < 100000 && c.Kind != "run" {
 			a, err := h.askModel(src, false)
 			fmt.Printf("model: %+v %v\n", a, err)
 		}
